@@ -19,7 +19,7 @@ def call_atom(ex, state, f, args, kwargs, node=None):
             sv = getattr(f, "self_val", None)
             if name in ex.reg.externals:
                 ex.notes["externals"].add(name)
-                return _ext_call(ex, state, ex.reg.externals[name], args, kwargs, sv)
+                return _ext_call(ex, state, ex.reg.externals[name], args, kwargs, sv, name)
             if name in models.BUILTINS:
                 return models.BUILTINS[name](ex, state, args, kwargs, sv)
             if name.split(".")[0] in ("log",) or name.startswith("self.log"):
@@ -44,7 +44,7 @@ def call_atom(ex, state, f, args, kwargs, node=None):
                 return call_repo(ex, state, fv, args, kwargs)
             if name in ex.reg.externals:
                 ex.notes["externals"].add(name)
-                return _ext_call(ex, state, ex.reg.externals[name], args, kwargs, f.self_val)
+                return _ext_call(ex, state, ex.reg.externals[name], args, kwargs, f.self_val, name)
             return unknown_call(ex, state, "virtual:" + str(name), args, kwargs, f.self_val)
         if f.fkind == "logmethod":
             return VNone
@@ -72,7 +72,7 @@ def call_atom(ex, state, f, args, kwargs, node=None):
     raise Unsupported("call of %r" % (f,))
 
 
-def _ext_call(ex, state, fn, args, kwargs, sv):
+def _ext_call(ex, state, fn, args, kwargs, sv, name=None):
     """assumed-contract model of an external: unions of argument kinds are split; a kind the model does not accept
     is a TypeError of the real function (harmless when that alternative is infeasible)"""
     def one(*atoms):
@@ -80,7 +80,7 @@ def _ext_call(ex, state, fn, args, kwargs, sv):
             return fn(ex, state, list(atoms), kwargs, sv)
         except (AttributeError, z3.Z3Exception):
             ex.raise_if(state, z3.BoolVal(True), "TypeError")
-    if any(isinstance(a, VUnion) for a in args):
+    if name in ex.reg.pure_externals and any(isinstance(a, VUnion) for a in args):
         return ex.dist(state, list(args), one)
     return fn(ex, state, args, kwargs, sv)
 
